@@ -352,7 +352,8 @@ func exhaustion(total int) func(x *exec, note func(string)) int64 {
 
 // cookiePayload: one relayed payload of the given length, optionally starting
 // with the STUN magic cookie, arrives as ChannelData on a confirmed channel
-// (kind "chan") or in a Data indication (kind "data"); ReadFrom must return it.
+// (kind "chan": padded to 4 bytes as pion's server does, "chan-unpadded": bare)
+// or in a Data indication (kind "data"); ReadFrom must return it.
 func cookiePayload(kind string, l int, withCookie bool) func(x *exec, note func(string)) int64 {
 	return func(x *exec, note func(string)) int64 {
 		for _, ev := range []string{"w:P1", "r:success", "r:success", "read"} {
@@ -371,9 +372,9 @@ func cookiePayload(kind string, l int, withCookie bool) func(x *exec, note func(
 		}
 		x.tokens = map[string]bool{}
 		switch kind {
-		case "chan":
+		case "chan", "chan-unpadded":
 			x.m.queue = append(x.m.queue, qent{string(payload), who})
-			x.inbound("chandata-bound-channel", wire.ChannelData(n, payload, true))
+			x.inbound("chandata-bound-channel", wire.ChannelData(n, payload, kind == "chan"))
 		case "data":
 			x.m.queue = append(x.m.queue, qent{string(payload), peerAddrs["P1"].String()})
 			x.inbound("data-indication", dataInd(x.nextTx(), peerAddrs["P1"], payload))
@@ -426,8 +427,12 @@ func scenarios() []scenario {
 		{name: "burst-12-connection-attempts-nobody-accepts", tcp: true, run: connAttemptBurst},
 		{name: "channel-numbers-16385-peers", run: exhaustion(16385)},
 	}
-	for _, kind := range []string{"chan", "data"} {
-		for l := 0; l <= 24; l++ {
+	maxLen := 24
+	if rep.Thorough() {
+		maxLen = 64
+	}
+	for _, kind := range []string{"chan", "chan-unpadded", "data"} {
+		for l := 0; l <= maxLen; l++ {
 			sc = append(sc, scenario{name: fmt.Sprintf("payload-%s-len%d-plain", kind, l), run: cookiePayload(kind, l, false)})
 			if l >= 4 {
 				sc = append(sc, scenario{name: fmt.Sprintf("payload-%s-len%d-cookie", kind, l), run: cookiePayload(kind, l, true)})
